@@ -83,7 +83,8 @@ impl<T: ?Sized> BorrowMut<T> for Static<T> {
 /// which is safe to do since `Static` is `#[repr(transparent)]`.
 pub struct StaticPtrMeta<P>(PhantomData<P>);
 
-impl<T: ?Sized, M, P: PtrMeta<T, M>> PtrMeta<Static<T>, M> for StaticPtrMeta<P> {
+// SAFETY: `Static<T>` is `repr(transparent)`, the conversions delegate to `P`.
+unsafe impl<T: ?Sized, M, P: PtrMeta<T, M>> PtrMeta<Static<T>, M> for StaticPtrMeta<P> {
     type PtrMetadata = P::PtrMetadata;
     type Thin = Static<P::Thin>;
 
